@@ -912,7 +912,41 @@ impl<'a, V: VariationInfo> ValidationCtx<'a, V> {
         }
     }
 
+    /// A glyph range (`a-z`) stands for several glyphs, which only a glyph
+    /// class can hold: where a single glyph or a class is expected a bare
+    /// range leaves the rule without the item its accessors look for.
+    ///
+    /// Reports every range that is not inside a glyph class; returns `true`
+    /// if there was one, in which case the rule cannot be validated further.
+    fn reject_bare_glyph_ranges(&mut self, items: crate::token_tree::ChildIter) -> bool {
+        let mut found = false;
+        for item in items {
+            match item.kind() {
+                Kind::GlyphClass => (),
+                Kind::GlyphRange => {
+                    self.error(
+                        item.range(),
+                        "a glyph range is only allowed inside a glyph class",
+                    );
+                    found = true;
+                }
+                _ => {
+                    if let Some(node) = item.as_node() {
+                        found |= self.reject_bare_glyph_ranges(node.iter_children());
+                    }
+                }
+            }
+        }
+        found
+    }
+
     fn validate_gpos_statement(&mut self, node: &typed::GposStatement) {
+        if node
+            .node()
+            .is_some_and(|node| self.reject_bare_glyph_ranges(node.iter_children()))
+        {
+            return;
+        }
         match node {
             typed::GposStatement::Type1(rule) => {
                 self.validate_glyph_or_class(&rule.target());
@@ -1027,6 +1061,12 @@ impl<'a, V: VariationInfo> ValidationCtx<'a, V> {
     }
 
     fn validate_gsub_statement(&mut self, node: &typed::GsubStatement) {
+        if node
+            .node()
+            .is_some_and(|node| self.reject_bare_glyph_ranges(node.iter_children()))
+        {
+            return;
+        }
         match node {
             typed::GsubStatement::Type1(rule) => {
                 //TODO: ensure equal lengths, other requirements
